@@ -131,6 +131,7 @@ theorem C15_same_tail :
 theorem C15_pins :
     Generated.popenBootstrapLine = "import sys;exec(eval(sys.stdin.readline()))"
     ∧ Generated.channelexecName = "__channelexec__"
+    ∧ Generated.nonAsciiShipped = []
     ∧ Generated.specFlags = ["popen", "python", "socket", "ssh", "vagrant_ssh", "via"]
     ∧ (Generated.sequences.map (·.name)).take 3 = ["import", "exec", "socket"]
     ∧ (∀ q ∈ Generated.sequences, q.name = "exec" → q.inMain = true)
